@@ -64,7 +64,7 @@ fn run_scenario(seed: u64, mode: &str) -> ScenarioResult {
     let pubs = 2 + rng.below(5);
     let nreaders = 1 + rng.below(2) as usize;
     let calls = 4 + rng.below(8);
-    let stop_at: Option<u64> = if mode == "c04" { Some(1 + rng.below(22)) } else { None };
+    let stop_at: Option<u64> = if mode == "c04" { Some(1 + rng.below(11)) } else { None };
     let stop_pub = 1 + rng.below(pubs);
     let wden = *rng.pick(&[2u64, 3, 4, 8]);
     let rden = *rng.pick(&[4u64, 8, 16, 32]);
@@ -85,7 +85,10 @@ fn run_scenario(seed: u64, mode: &str) -> ScenarioResult {
         let mut stops = 0u64;
         let mut writer = unsafe { ShmWriter::verif_from_raw(seg.0) };
         let mut i = base;
-        for n in 1..=pubs {
+        let mut n = 0;
+        let mut total = pubs;
+        while n < total {
+            n += 1;
             i += 1;
             let count = std::rc::Rc::new(std::cell::Cell::new(0u64));
             {
@@ -121,8 +124,13 @@ fn run_scenario(seed: u64, mode: &str) -> ScenarioResult {
                     if !payload.is::<StopToken>() {
                         std::panic::resume_unwind(payload);
                     }
-                    // The daemon died; a new one takes the segment over.
+                    // The daemon died; a new one takes the segment over, and publishes at least once
+                    // more (a generation left odd for ever makes readers spin to their retry cap,
+                    // which is C18's subject and far too slow under an interpreter).
                     stops += 1;
+                    if n == total {
+                        total += 1;
+                    }
                     drop(writer);
                     writer = unsafe { ShmWriter::verif_from_raw(seg.0) };
                 }
